@@ -22,6 +22,8 @@ structure Good (rows : List CRow) (outF : List OutEdge) : Prop where
     ((testsOf (kindOf c.row.type) (outF.filter (·.src = j))).map (fun e => refTest (kindOf c.row.type) e.cond)).Nodup
   var : ∀ (j : Nat) (c : CRow), rows[j]? = some c → kindOf c.row.type = .action →
     ∀ e ∈ (outF.filter (·.src = j)).filter (fun e => !e.cond.blank), e.cond.var = implVar (outF.filter (·.src = j))
+  names : ∀ (j : Nat) (c : CRow), rows[j]? = some c → isTestKind (kindOf c.row.type) →
+    namesOk (kindOf c.row.type) (timeoutOf c.row) [] (testsOf (kindOf c.row.type) (outF.filter (·.src = j))) = true
 
 theorem Good.nodup_prefix {rows : List CRow} {outF l : List OutEdge} (g : Good rows outF) (hl : l <+: outF)
     (j : Nat) (c : CRow) (hc : rows[j]? = some c) (hk : isTestKind (kindOf c.row.type)) :
@@ -60,14 +62,28 @@ theorem blank_value {cond : Compile.Cond} (h : cond.blank = true) : cond.value =
 
 theorem lower_eq (v : Str) : RefFlow.lower v = Compile.lower v := rfl
 
+/-- the explicit category name of a new test is not in use -/
+theorem Good.fresh_prefix {rows : List CRow} {outF l : List OutEdge} (g : Good rows outF) (hl : l <+: outF)
+    (j : Nat) (c : CRow) (hc : rows[j]? = some c) (hk : isTestKind (kindOf c.row.type))
+    (es : List OutEdge) (e : OutEdge) (hfil : l.filter (·.src = j) = es ++ [e])
+    (htests : testsOf (kindOf c.row.type) (es ++ [e]) = testsOf (kindOf c.row.type) es ++ [e])
+    (hne : e.cond.name ≠ []) :
+    e.cond.name ∉ namesFrom (kindOf c.row.type) (timeoutOf c.row) [] (testsOf (kindOf c.row.type) es) ++
+      baseNames (kindOf c.row.type) (timeoutOf c.row) := by
+  have hpre : testsOf (kindOf c.row.type) (l.filter (·.src = j)) <+: testsOf (kindOf c.row.type) (outF.filter (·.src = j)) := by
+    unfold testsOf
+    exact ((hl.filter _).filter _).filter _
+  have hok := namesOk_prefix _ _ _ _ hpre (g.names j c hc hk)
+  rw [hfil, htests] at hok
+  exact namesOk_last _ _ _ _ hok hne
+
 /-- what `edgeOk` says about a conditional edge leaving an action row -/
 theorem action_edge_ok (cond : Compile.Cond) (he : cond.blank = false)
-    (hok : (cond.blank || (!isNR (toRCond cond) && (toRCond cond).name.isEmpty)) = true) :
-    ¬ Compile.lower cond.value = "no response".toList ∧ cond.name = [] := by
-  rw [he, Bool.false_or, Bool.and_eq_true] at hok
-  obtain ⟨h1, h2⟩ := hok
-  rw [Bool.not_eq_true', isNR_toRCond] at h1
-  exact ⟨of_decide_eq_false h1, List.isEmpty_iff.mp h2⟩
+    (hok : (cond.blank || !isNR (toRCond cond)) = true) :
+    ¬ Compile.lower cond.value = "no response".toList := by
+  rw [he, Bool.false_or] at hok
+  rw [Bool.not_eq_true', isNR_toRCond] at hok
+  exact of_decide_eq_false hok
 
 theorem post_of_fixed (rows : List CRow) (M : Maps) (pd : Bool) (kg : Nat) (tgt : Target) (cond : Compile.Cond) (s : St)
     (st : P1) (j : Nat) (m : Compile.M PUnit) (h : wp m s (EdgePost rows M pd kg tgt cond s st j)) :
@@ -115,14 +131,17 @@ theorem addExit_sim (rows : List CRow) (outF : List OutEdge) (g : Good rows outF
     · exact ⟨fun _ => impl_blank_sim rows M pd kg d tgt cond s st j n c h hj hn hc hnode hk hd htg i' n' r hro hp he,
         fun hh => absurd ⟨he, hkr⟩ hh⟩
     · have he' : cond.blank = false := by simpa using he
-      obtain ⟨hnr, hname⟩ := action_edge_ok cond he' hok
+      have hnr := action_edge_ok cond he' hok
       refine ⟨fun hh => absurd hh.1 he, fun _ => ⟨fun hh => absurd hh hke, fun _ => ⟨fun hh => absurd hh hkw, fun _ =>
         ⟨fun hh => absurd hh.2 hnr, fun _ => ?_⟩⟩⟩⟩
+      have hfreeN := g.fresh_prefix hpre j c hc (.inr hk) (outOf st j) (newEdge tgt cond j) hfil
+        (by rw [hk]; exact tests_action_append _ _ (by simpa [toRCond_blank] using he'))
+      rw [hk] at hfreeN
       have hdist := g.nodup_prefix hpre j c hc (.inr hk)
       rw [hfil, hk] at hdist
       have hvar := g.var_prefix hpre j c hc hk (newEdge tgt cond j) (by rw [hfil]; simp) (by simpa [toRCond_blank] using he')
       rw [hfil] at hvar
-      exact impl_test_sim rows M pd kg d tgt cond s st j n c h hj hn hc hnode hk hd htg i' n' r hro hp he' hname hvar hdist
+      exact impl_test_sim rows M pd kg d tgt cond s st j n c h hj hn hc hnode hk hd htg i' n' r hro hp he' hfreeN hvar hdist
   | one hsim =>
   simp only [Option.toList, List.getLast?_singleton]
   wp_simp [wp_getNode]
@@ -141,10 +160,13 @@ theorem addExit_sim (rows : List CRow) (outF : List OutEdge) (g : Good rows outF
           (plain_edge_sim rows M pd kg d tgt cond s st j n c h hj hn hc hnode hro hd htg hk hp he),
         fun hh => absurd ⟨he, hkr⟩ hh⟩
     · have he' : cond.blank = false := by simpa using he
-      obtain ⟨hnr, hname⟩ := action_edge_ok cond he' hok
+      have hnr := action_edge_ok cond he' hok
       refine ⟨fun hh => absurd hh.1 he, fun _ => ⟨fun hh => absurd hh hke, fun _ => ⟨fun hh => absurd hh hkw, fun _ =>
         ⟨fun hh => absurd hh.1 hks, fun _ => ?_⟩⟩⟩⟩
-      exact impl_first_sim rows M pd kg d tgt cond s st j n c h hj hn hc hnode hk hd htg hro hp he' hname
+      have hfreeN := g.fresh_prefix hpre j c hc (.inr hk) (outOf st j) (newEdge tgt cond j) hfil
+        (by rw [hk]; exact tests_action_append _ _ (by simpa [toRCond_blank] using he'))
+      rw [hk] at hfreeN
+      exact impl_first_sim rows M pd kg d tgt cond s st j n c h hj hn hc hnode hk hd htg hro hp he' hfreeN
   | sw r hk hp =>
     have hdist := g.nodup_prefix hpre j c hc (.inl hk)
     rw [hfil] at hdist
@@ -167,13 +189,17 @@ theorem addExit_sim (rows : List CRow) (outF : List OutEdge) (g : Good rows outF
         exact ⟨fun _ => post_of_fixed _ _ _ _ _ _ _ _ _ _ (sw_nr_sim rows M pd kg d tgt cond s st j n c h hj hn hc hnode hro hd htg r hkwait hp he' hnr),
           fun hh => absurd ⟨hp.kind, hnr⟩ hh⟩
       · refine ⟨fun hh => absurd hh.2 hnr, fun _ => ?_⟩
-        have hname : cond.name = [] := by
-          rcases hk with h1 | h1 | h1 <;> rw [h1] at hok <;>
-            simp only [Bool.false_or, Bool.and_eq_true, List.isEmpty_iff, toRCond] at hok <;> exact hok.2
+        have heb : (newEdge tgt cond j).cond.blank = false := by simpa [toRCond_blank] using he'
+        have hnotnr : ¬ (kindOf c.row.type = .wait ∧ isNR (newEdge tgt cond j).cond = true) := by
+          rintro ⟨_, h2⟩
+          simp only [isNR_toRCond, decide_eq_true_eq] at h2
+          exact hnr h2
+        have hfreeN := g.fresh_prefix hpre j c hc (.inl hk) (outOf st j) (newEdge tgt cond j) hfil
+          (testsOf_append_test _ _ _ heb hnotnr)
         have hvar : kindOf c.row.type = .wait → cond.var = [] := by
           intro h1; rw [h1] at hok
-          simp only [Bool.false_or, Bool.and_eq_true, List.isEmpty_iff, toRCond] at hok; exact hok.1
-        exact post_of_fixed _ _ _ _ _ _ _ _ _ _ (sw_test_sim rows M pd kg d tgt cond s st j n c h hj hn hc hnode hro hd htg r hk hp he' (fun _ => hnr) (fun _ => hnr) hvar hname hdist)
+          simp only [Bool.false_or, List.isEmpty_iff, toRCond] at hok; exact hok
+        exact post_of_fixed _ _ _ _ _ _ _ _ _ _ (sw_test_sim rows M pd kg d tgt cond s st j n c h hj hn hc hnode hro hd htg r hk hp he' (fun _ => hnr) (fun _ => hnr) hvar hfreeN hdist)
   | rnd r hk hp =>
     rw [hk] at hok
     have hke : n.kind ≠ NodeKind.enter := by rw [hp.kind]; intro hh; cases hh
